@@ -5,14 +5,20 @@ package main
 import (
 	"bytes"
 	"fmt"
+	"math"
 	"os"
 	"os/exec"
 	"path/filepath"
 	"strings"
 	"sync/atomic"
+	"syscall"
 	"time"
 
 	auto "github.com/moorara/algo/automata"
+	"github.com/moorara/algo/grammar"
+
+	"github.com/gardenbed/charm/ui"
+	"github.com/gardenbed/emerge/internal/generate/golang"
 
 	east "github.com/gardenbed/emerge/internal/ebnf/parser/ast"
 	"github.com/gardenbed/emerge/internal/ebnf/parser/spec"
@@ -26,11 +32,11 @@ func init() {
 		level: "exploration",
 		rule: "specification texts: random bytes (incl. invalid UTF-8, NUL, 8-bit), EVERY prefix of every fixture and of generated specifications, byte- and token-level mutations of valid ones, token soup (random sequences of valid tokens: reaches the type assertions of the reduce actions), deep nesting and long alternations; " +
 			"patterns: all strings up to length 3 over a 24-symbol metacharacter alphabet plus seeded longer ones, the empty string, escapes above U+007F inside and outside brackets, \\p{..} in brackets, 8-digit \\x, large repetition counts ({64}, {100}); command lines: ~150 flag/argument combinations of the real binary. " +
-			"Each entry point (spec.Parse -> Spec.DFA -> LALRParsingTable, ebnf ast.Parse, nfa.Parse -> ToDFA, regex ast.Parse -> ToDFA) runs in a worker process that writes the input to disk first: a recovered panic, the death of the worker, 'success' with a nil result, or (inputs <= 256 bytes) a run that does not finish within 120 s is a violation; CLI: non-zero exit and a message on every error, never 'goroutine'/'panic:'/'runtime error' in the output. " +
+			"Each entry point (spec.Parse -> Spec.DFA -> LALRParsingTable, ebnf ast.Parse, nfa.Parse -> ToDFA, regex ast.Parse -> ToDFA) runs in a worker process that writes the input to disk first: a recovered panic, the death of the worker, 'success' with a nil result, or a run that uses more CPU time than its size allows without finishing (40 s of CPU for inputs <= 1 KiB, 120 s for <= 4 KiB; the unchanged tree needs milliseconds to a few seconds) is a violation; CLI: non-zero exit and a message on every error, never 'goroutine'/'panic:'/'runtime error' in the output. " +
 			"non-trivial = text with >= 1 token reaching the parser, or pattern of >= 2 characters; distinct by input.",
 		assumptions: []string{
 			"resource bounds are not hangs: repetition counts above 100 and ranges above U+FFFF wide are not generated",
-			"a worker that exceeds the watchdog on an input larger than 256 bytes is inconclusive, not a violation",
+			"an input larger than 4 KiB that exceeds 240 s of CPU time, or any input that exceeds 15 min of wall-clock time on an overloaded machine, is inconclusive, not a violation; the hang verdict is taken on CPU time so that machine load cannot cause it",
 		},
 		floorQuick: 20000, floorThorough: 500000,
 		run: runC14,
@@ -40,10 +46,13 @@ func init() {
 			return nil
 		}
 		kind := "worker process died (fatal error / stack overflow / killed)"
+		if strings.HasPrefix(last, "STALL ") {
+			return nil // wall-clock backstop on an overloaded machine: inconclusive
+		}
 		if strings.HasPrefix(last, "HANG ") {
-			kind = "did not finish within the per-input limit"
+			kind = "did not finish within the CPU-time limit for its size"
 			last = strings.TrimPrefix(last, "HANG ")
-			if len(last) > 300 {
+			if _, verdict := c14Limit(len(last)); !verdict {
 				return nil // inconclusive by the stated rule
 			}
 		}
@@ -54,15 +63,53 @@ func init() {
 var c14Current atomic.Value // string: the input being processed
 var c14Started atomic.Int64
 
+// cpuSeconds: CPU time (user + system, all threads) this worker process has consumed so far. The hang verdict is
+// taken on CPU time, not wall-clock time, so that a loaded machine cannot turn a slow input into a "hang".
+func cpuSeconds() float64 {
+	var ru syscall.Rusage
+	if err := syscall.Getrusage(syscall.RUSAGE_SELF, &ru); err != nil {
+		return 0
+	}
+	return float64(ru.Utime.Sec+ru.Stime.Sec) + float64(ru.Utime.Usec+ru.Stime.Usec)/1e6
+}
+
+var c14StartCPU atomic.Uint64 // math.Float64bits of cpuSeconds() when the current input started
+
+// c14Limit: CPU seconds an input of this size may take; violation tells whether exceeding it is a verdict (small inputs,
+// which take milliseconds on the unchanged tree) or only inconclusive (large ones: super-linear but finite costs exist).
+func c14Limit(n int) (cpu float64, verdict bool) {
+	switch {
+	case n <= 1024:
+		return 40, true
+	case n <= 4096:
+		return 120, true
+	}
+	return 240, false
+}
+
 func c14Watchdog(c *ctx) {
 	go func() {
 		for {
-			time.Sleep(2 * time.Second)
+			time.Sleep(time.Second)
 			st := c14Started.Load()
-			if st != 0 && time.Since(time.Unix(0, st)) > 120*time.Second {
-				in, _ := c14Current.Load().(string)
+			if st == 0 {
+				continue
+			}
+			in, _ := c14Current.Load().(string)
+			used := cpuSeconds() - math.Float64frombits(c14StartCPU.Load())
+			limit, _ := c14Limit(len(in))
+			wall := time.Since(time.Unix(0, st))
+			if c14Started.Load() != st {
+				continue // the input finished meanwhile
+			}
+			if used > limit {
 				c.guard("HANG " + in)
-				fmt.Fprintf(os.Stderr, "watchdog: input did not finish in 120 s: %q\n", in)
+				fmt.Fprintf(os.Stderr, "watchdog: input used %.0f s of CPU time without finishing (limit %.0f s for %d bytes): %q\n", used, limit, len(in), in)
+				os.Exit(3)
+			}
+			if wall > 15*time.Minute {
+				c.guard("STALL " + in)
+				fmt.Fprintf(os.Stderr, "watchdog: input did not finish in %v of wall-clock time (only %.0f s of CPU time: the machine is overloaded): %q\n", wall, used, in)
 				os.Exit(3)
 			}
 		}
@@ -73,12 +120,18 @@ func c14Run(c *ctx, kind, input string, f func() (resultNil bool, err error)) {
 	c.eval()
 	c.guard(kind + " " + input)
 	c14Current.Store(kind + " " + input)
+	cpu0 := cpuSeconds()
+	c14StartCPU.Store(math.Float64bits(cpu0))
 	c14Started.Store(time.Now().UnixNano())
 	var resNil bool
 	var err error
 	pv, stack := safely(func() { resNil, err = f() })
 	el := time.Since(time.Unix(0, c14Started.Load()))
 	c14Started.Store(0)
+	if used := cpuSeconds() - cpu0; (len(input) <= 1024 && used > 4) || (len(input) <= 4096 && used > 12) {
+		c.note("near the limit: %.1f s of CPU time for %d bytes: %s %q", used, len(input), kind, input)
+		c.count("inputs_that_used_more_than_a_tenth_of_their_cpu_limit", 1)
+	}
 	if el > 5*time.Second {
 		c.note("slow (%v) %s %q", el, kind, input)
 		c.count("inputs_slower_than_5s", 1)
@@ -128,6 +181,17 @@ func c14Spec(c *ctx, text string) {
 			if terr == nil && T == nil {
 				return true, nil
 			}
+			// the generator itself, for a share of the accepted small specifications and for every named odd shape
+			if derr == nil && terr == nil && (c14GenerateAll || c.res.Evaluations%2 == 0) {
+				dir, merr := os.MkdirTemp("", "verif-c14gen-")
+				if merr == nil {
+					defer os.RemoveAll(dir)
+					c.count("accepted_specifications_driven_through_the_generator", 1)
+					if gerr := golang.Generate(ui.NewNop(), &golang.Params{Path: dir, Spec: s}); gerr != nil {
+						return false, gerr
+					}
+				}
+			}
 		}
 		return false, nil
 	})
@@ -135,6 +199,137 @@ func c14Spec(c *ctx, text string) {
 		g, err := east.Parse(fileName, strings.NewReader(text))
 		return g == nil, err
 	})
+}
+
+// c14GenerateAll makes c14Spec drive every accepted specification through the generator (set by the named families).
+var c14GenerateAll bool
+
+// c14OddShapes: small valid specifications of unusual shape (no terminal at all, only empty rules, one symbol of
+// every kind, a token that is declared and never used, names at the edge of what an identifier may be ...).
+var c14OddShapes = []string{
+	"grammar e; start = ;",
+	"grammar e; start = | ;",
+	"grammar e; start = head tail; head = ; tail = ;",
+	"grammar e; start = [a]; a = ;",
+	"grammar e; start = {a}; a = \"x\";",
+	"grammar e; start = a; a = b; b = c; c = ;",
+	"grammar e; UNUSED = \"u\"; start = ;",
+	"grammar e; UNUSED = /u+/; start = \"a\";",
+	"grammar e; WS = $WS; start = ;",
+	"grammar e; @left \"+\"; start = ;",
+	"grammar e; @left <start = >; start = ;",
+	"grammar e; start = \"\\\"\";",
+	"grammar e; start = \" \";",
+	"grammar e; A = /a?/; start = A;",
+	"grammar e; A = /a*/; B = /b*/; start = A B;",
+	"grammar e; start = \"a\" | ;",
+	"grammar e; start = s_; s_ = \"a\";",
+	"grammar e; start = a1_b2__; a1_b2__ = \"a\";",
+	"grammar e9_; T_1 = \"t\"; start = T_1;",
+}
+
+// c14HashFlood builds specifications whose symbol names are chosen, with the symbol tables' own hash functions, so
+// that they fill exactly the slots one further name can probe (quadratic probing over a prime number of slots M reaches
+// only (M+1)/2 of them): the classic hostile input against an open-addressing table.
+func c14HashFlood() []string {
+	var out []string
+	probeSet := func(h uint64, M int) map[int]bool {
+		S := map[int]bool{}
+		h1 := int(h % uint64(M))
+		for i := 0; i < M; i++ {
+			S[(h1+i*i)%M] = true
+		}
+		return S
+	}
+	mix := func(h uint64) uint64 { return h ^ (h >> 20) ^ (h >> 12) ^ (h >> 7) ^ (h >> 4) }
+	for _, M := range []int{89, 179} {
+		for _, kind := range []string{"nonterminal", "token", "literal"} {
+			for _, victim := range []string{"victim", "zz"} {
+				hashOf := func(n string) uint64 {
+					switch kind {
+					case "nonterminal":
+						return mix(grammar.HashNonTerminal(grammar.NonTerminal(n)))
+					}
+					return mix(grammar.HashTerminal(grammar.Terminal(n)))
+				}
+				spell := func(n string) string {
+					switch kind {
+					case "token":
+						return strings.ToUpper(n)
+					}
+					return n
+				}
+				S := probeSet(hashOf(spell(victim)), M)
+				filled := map[int]bool{}
+				put := func(n string) {
+					h1 := int(hashOf(n) % uint64(M))
+					for i := 0; i < 4*M; i++ {
+						if sl := (h1 + i*i) % M; !filled[sl] {
+							filled[sl] = true
+							return
+						}
+					}
+				}
+				var names []string
+				if kind == "nonterminal" {
+					put("start")
+				}
+				next := 0
+				pickName := func(inS bool) string {
+					for {
+						next++
+						n := spell(fmt.Sprintf("n%d", next))
+						sl := int(hashOf(n) % uint64(M))
+						if !filled[sl] && S[sl] == inS {
+							return n
+						}
+					}
+				}
+				for i := 0; i < 6; i++ {
+					n := pickName(false)
+					put(n)
+					names = append(names, n)
+				}
+				for {
+					missing := 0
+					for sl := range S {
+						if !filled[sl] {
+							missing++
+						}
+					}
+					if missing == 0 {
+						break
+					}
+					n := pickName(true)
+					put(n)
+					names = append(names, n)
+				}
+				names = append(names, spell(victim))
+				var b strings.Builder
+				b.WriteString("grammar flood;\n")
+				switch kind {
+				case "nonterminal":
+					b.WriteString("start = " + strings.Join(names, " ") + ";\n")
+					for _, n := range names {
+						fmt.Fprintf(&b, "%s = \"a\";\n", n)
+					}
+				case "token":
+					for i, n := range names {
+						fmt.Fprintf(&b, "%s = \"t%d\";\n", n, i)
+					}
+					b.WriteString("start = " + strings.Join(names, " ") + ";\n")
+				case "literal":
+					b.WriteString("start =")
+					for _, n := range names {
+						fmt.Fprintf(&b, " %q", n)
+					}
+					b.WriteString(";\n")
+				}
+				out = append(out, b.String())
+			}
+		}
+	}
+	return out
 }
 
 func c14Pattern(c *ctx, p string) {
@@ -295,6 +490,15 @@ func runC14(c *ctx) {
 			}
 		}
 	}
+	// --- odd shapes and hash-flooding names, each through every stage including the generator
+	c14GenerateAll = true
+	for i, t := range append(append([]string{}, c14OddShapes...), c14HashFlood()...) {
+		if c.mineIdx(i) {
+			c14Spec(c, t)
+			c.count("odd_shapes_and_hash_flooding_specifications", 1)
+		}
+	}
+	c14GenerateAll = false
 	// --- deep / long
 	idx := 0
 	for _, d := range []int{500, 1100, 2500} {
@@ -355,7 +559,7 @@ func runC14(c *ctx) {
 	c.exhaustive(fmt.Sprintf("all_patterns_len_le_%d_over_24_symbols", maxLen), true)
 	special := []string{"", `[\x0100]`, `[^\x0100]`, `[\x80]`, `[\x0080]`, `[^\x80]`, `[\x7E-\x82]`, `[\x00-\xFF]`, `[\p{Latin}]`, `[^\p{Greek}a]`, `\p{Emoji}`, `\P{Lu}`, `[\P{L}]`, `\xFFFFFFFF`, `[\xFFFFFFFF]`, `\x0010FFFF`, `\x00110000`,
 		`[\x7FFFFFFF-\xFFFFFFFF]`, `\x80`, `\xFF+`, `é`, `[é]`, "a\x00b", "\xff", "[\xc3]", `a{64}`, `[0-9a-f]{64}`, `a{100}`, `(ab){40}`, `(a|b){65}`, `a{0}`, `(a{0}){0}`, `(((((a)))))`, `a{1,0}`, `a{00}`, `a{,3}`, `[]`, `[^]`, `[a-]`, `[-a]`, `()`, `(|)`, `a||b`, `^`, `$`, `^$`, `^^a`, `a$$`, `\`, `\x`, `\x4`, `\xG0`, `\p`, `\p{`, `\p{Foo}`, `[:alpha:`, `[[:alpha:]]`, `[[:nope:]]`,
-		strings.Repeat("(", 3000) + "a" + strings.Repeat(")", 3000), strings.Repeat("a|", 2000) + "a", strings.Repeat("a?", 60), strings.Repeat("[a-z]", 70)}
+		strings.Repeat("(", 3000) + "a" + strings.Repeat(")", 3000), strings.Repeat("a|", 1200) + "a", strings.Repeat("a?", 60), strings.Repeat("[a-z]", 70)}
 	for i, p := range special {
 		if c.mineIdx(i) {
 			c14Pattern(c, p)
@@ -517,4 +721,19 @@ func stripANSI(s string) string {
 		b.WriteByte(s[i])
 	}
 	return b.String()
+}
+
+func init() {
+	// vh aux c14one <file>: time spec.Parse alone on one text (used to confirm a suspected hang outside the batch).
+	auxCommands["c14one"] = func(args []string) int {
+		b, err := os.ReadFile(args[0])
+		if err != nil {
+			fmt.Println(err)
+			return 2
+		}
+		t0 := time.Now()
+		_, perr := spec.Parse(fileName, bytes.NewReader(b))
+		fmt.Printf("spec.Parse: %v err=%v\n", time.Since(t0), perr != nil)
+		return 0
+	}
 }
